@@ -253,6 +253,8 @@ def run(run):
                     if not _task_equal(ga[k], gb[k]):
                         run.violation("C08.R.variations:one-key-two-different-tasks", f"{ka} vs {kb}", f"key {str(k)[:100]} is defined with different tasks by the two queries; computing them together lets one overwrite the other", {"kind": "none"})
                         break
+    # ---- R: inputs that look alike from the outside (same shape, same file size, same second) but hold different data
+    data_identity(run)
     # ---- R: other interpreters
     configs = [(0, "forward", False), (1, "reverse", True), (12345, "shuffled", True)] + ([("random", "forward", True), (7, "reverse", False)] if run.tier == "thorough" else [])
     for hs, order, warm in configs:
@@ -278,6 +280,80 @@ def run(run):
     run.assume("A4: dask.base.tokenize is deterministic and injective on the operand tuples it is given (md5 collisions excluded); checked only on the operand kinds of the families above")
     run.assume("A-names: an expression name ends in a 32-character token (name-format lemma proved with z3's sequence theory for that length)")
     run.trust("contract table vf/contracts/names.py (which operands each _name must tokenize) and vf/contracts/name_clash_table.json (discriminating operand condition of same-head same-arity classes)")
+
+
+def data_identity(run):
+    """Two collections built from different input DATA never share a name (and never share task keys)."""
+    import shutil
+    import tempfile
+
+    import dask
+    import numpy as np
+    import pandas as pd
+
+    import dask_expr as dx
+
+    rule = "pairs of sources that differ only in their data: pandas frames, arrays, parquet files rewritten in place (same byte size, modification times 0.5 s apart inside one second), imported graphs with equal keys"
+    v1 = pd.DataFrame({"a": [1, 2, 3, 4], "b": [10.0, 20.0, 30.0, 40.0]}, index=pd.Index([10, 11, 12, 13], name="i"))
+    v2 = pd.DataFrame({"a": [4, 3, 2, 1], "b": [40.0, 10.0, 20.0, 30.0]}, index=pd.Index([20, 21, 22, 23], name="i"))
+
+    def check(label, a, b, extra=""):
+        run.count("C08.R.data:different-data-different-name", 1, label, rule=rule)
+        if a._name == b._name:
+            run.violation("C08.R.data:different-data-share-a-name", label, f"both collections are named {a._name} {extra}", {"kind": "none"})
+            return
+        ka, kb = set(map(str, a.__dask_keys__())), set(map(str, b.__dask_keys__()))
+        if ka & kb:
+            run.violation("C08.R.data:different-data-share-task-keys", label, f"shared keys {sorted(ka & kb)[:2]}", {"kind": "none"})
+
+    check("from_pandas", dx.from_pandas(v1, npartitions=2), dx.from_pandas(v2, npartitions=2))
+    check("from_pandas/same-index", dx.from_pandas(v1, npartitions=2), dx.from_pandas(v1.assign(b=v1.b + 1), npartitions=2))
+    check("from_array", dx.from_array(np.arange(8).reshape(4, 2), columns=["x", "y"]), dx.from_array(np.arange(8).reshape(4, 2) + 1, columns=["x", "y"]))
+    # imported graphs (persist / legacy import path): same keys, meta, divisions, prefix - different layer
+    from dask_expr._collection import from_graph
+
+    keys = [("imported-x", 0), ("imported-x", 1)]
+    g1 = {keys[0]: v1.iloc[:2], keys[1]: v1.iloc[2:]}
+    g2 = {keys[0]: v2.iloc[:2], keys[1]: v2.iloc[2:]}
+    try:
+        c1 = from_graph(g1, v1.iloc[:0], (None, None, None), keys, "imported")
+        c2 = from_graph(g2, v1.iloc[:0], (None, None, None), keys, "imported")
+        check("from_graph/equal-keys-different-layer", c1, c2)
+        if c1._name != c2._name:
+            r2 = c2.compute()
+            if r2.a.tolist() != v2.a.tolist():
+                run.violation("C08.R.data:second-import-returns-first-data", "from_graph/equal-keys-different-layer", f"computed {r2.a.tolist()}", {"kind": "none"})
+    except Exception as ex:
+        run.notes.append(f"from_graph data-identity case not evaluated: {type(ex).__name__}: {str(ex)[:100]}")
+    tmp = tempfile.mkdtemp(prefix="verif_c08_")
+    try:
+        for fs in ("fsspec", "arrow"):
+            path = os.path.join(tmp, f"data_{fs}.parquet")
+            base = 1_700_000_000 * 10**9
+
+            def write(pdf, off):
+                pdf.to_parquet(path)
+                os.utime(path, ns=(base + off, base + off))
+                return os.path.getsize(path)
+
+            kw = {"filesystem": fs}
+            s1 = write(v1, 100_000_000)
+            a = dx.read_parquet(path, calculate_divisions=True, **kw)
+            a_name, a_keys, a_div = a._name, a.__dask_keys__(), a.divisions
+            same = dx.read_parquet(path, calculate_divisions=True, **kw)
+            run.count("C08.R.data:same-file-same-name", 1, fs, rule="re-reading an unchanged file gives the same name")
+            if same._name != a_name:
+                run.violation("C08.R.data:same-file-different-name", f"read_parquet/{fs}", f"{a_name} vs {same._name}", {"kind": "none"})
+            s2 = write(v2, 600_000_000)
+            b = dx.read_parquet(path, calculate_divisions=True, **kw)
+            label = f"read_parquet/{fs}/rewritten-in-place same-size={s1 == s2} same-second"
+            run.count("C08.R.data:different-data-different-name", 1, label, rule=rule)
+            if b._name == a_name:
+                run.violation("C08.R.data:different-data-share-a-name", label, f"the rewritten file is read under the old name {a_name}; divisions reported {b.divisions} (old {a_div})", {"kind": "none"})
+            elif tuple(b.divisions) != (20, 23) or b.compute().a.tolist() != v2.a.tolist():
+                run.violation("C08.R.data:rewritten-file-read-stale", label, f"divisions {b.divisions}", {"kind": "none"})
+    finally:
+        shutil.rmtree(tmp, ignore_errors=True)
 
 
 def replay_pair(a, b):
